@@ -1,4 +1,5 @@
 import Lox.Dec.AssignRun
+import Lox.Dec.AssignNames
 /-!
 # C06 – type-matched binding of action methods
 
@@ -258,6 +259,22 @@ theorem violates_not_spec {c : Case} {d : Diag} (v : Violates c d) : ¬ Spec c :
     exact hall p hp hu hm
   · exact v
 
+/-- **The naming convention.** For a rule name that is not empty, contains no `"__"` and does not
+end in `'_'`, the methods lox attributes to the rule (`ruleFromMethod`) are exactly `on_<rule>` and
+`on_<rule>__<suffix>`. (Rule names with `"__"` are rejected by the front end; for the other two
+caveats see the examples after `ruleOfChars_iff`.) -/
+theorem naming_convention {n r : List Char} (hne : r ≠ []) (hs : hasSep r = false)
+    (hl : r.getLast? ≠ some '_') :
+    ruleOfChars n = some r ↔
+      n = 'o' :: 'n' :: '_' :: r ∨ ∃ s, n = 'o' :: 'n' :: '_' :: (r ++ '_' :: '_' :: s) :=
+  ruleOfChars_iff hne hs hl
+
+/-- The hypotheses of this file are decided per case by the driver (`dec.assignwf`): `decide (WF c)`
+and `identCheck`, the latter being sufficient for `IdentEquiv` on a tabulated universe. -/
+theorem hypotheses_checkable {c : Case} {n : Nat} (h : identCheck c n = true)
+    (hout : ∀ i j, (n ≤ i ∨ n ≤ j) → c.identical i j = (i == j)) : IdentEquiv c :=
+  identEquiv_of_check h hout
+
 /-! ## Values at run time -/
 
 /-- Everything `_act` relies on is established by a successful `AssignActions`. -/
@@ -489,6 +506,22 @@ example : ∃ m, exBinding.method[2]? = some (some m) ∧
   obtain ⟨m, h1, _, _, h4⟩ := values_flow exCase_wf exCase_ident exCase_ok exV_lawful exCall
     exCall_typed hr (p := 2) (pr := ⟨2, [.tok]⟩) rfl (by unfold UserProd; decide) rfl
   exact ⟨m, h1, h4⟩
+
+/-- `values_flow_helpers` and `stack_invariant` are not vacuous either: `A+ = A` (production 6)
+reduces the reachable stack `A`; the slice it builds is well typed for `[]Token`. -/
+example :
+    act exCase exBinding exV exCall (castTo exV) 6 [(some 0, 7)] =
+      act exCase exBinding exV exCall (fun _ v => v) 6 [(some 0, 7)] ∧
+    StackOK exV exCase exBinding [(Term.rule 4, ((some 4, 8) : exV.Val))] := by
+  have hr : Reach exCase exBinding exV exCall ([] ++ [(Term.tok, ((some 0, 7) : exV.Val))]) :=
+    Reach.step Reach.init (Step.shiftTok (c := exCase) (b := exBinding) (V := exV) (call := exCall)
+      [] (some 0, 7) (Or.inl rfl))
+  refine ⟨values_flow_helpers exCase_wf exCase_ident exCase_ok exV_lawful exCall exCall_typed hr
+    (p := 6) (pr := ⟨4, [.tok]⟩) rfl rfl, ?_⟩
+  have hr2 : Reach exCase exBinding exV exCall ([] ++ [(Term.rule 4, ((some 4, 8) : exV.Val))]) :=
+    Reach.step hr (Step.reduce (c := exCase) (b := exBinding) (V := exV) (call := exCall)
+      [] [(Term.tok, ((some 0, 7) : exV.Val))] 6 ⟨4, [.tok]⟩ (some 4, 8) rfl rfl rfl)
+  exact stack_invariant exCase_wf exCase_ident exCase_ok exV_lawful exCall exCall_typed hr2
 
 /-- **The repaired defect D4** (`_cast[<parameter type>]`, the template before the repair).
 `on_s(a []Token, n []int)` is accepted for `s = A* n?` because `N` is assignable to `[]int`; the
